@@ -448,17 +448,16 @@ def main(tier):
     flags, drop = mirror.c_values('default', ['igzip_lib.h'], [(n, n) for n in names], 'c11_flags')
     if drop:
         raise AnalysisBroken('wrapper flags missing: %s' % drop)
-    check_family(rep, mod, flags)
-    check_reach(rep, mod, flags)
-    check_cmp(rep, mod)
-    check_trailer_write(rep, mod, flags)
-    check_adler_range(rep, mod)
-    check_csum_range(rep, mod)
-    check_csum_guard(rep, mod, flags)
-    check_state_after_compare(rep, mod)
+    rep.attempt(check_family, rep, mod, flags)
+    rep.attempt(check_reach, rep, mod, flags)
+    rep.attempt(check_cmp, rep, mod)
+    rep.attempt(check_trailer_write, rep, mod, flags)
+    rep.attempt(check_adler_range, rep, mod)
+    rep.attempt(check_csum_range, rep, mod)
+    rep.attempt(check_csum_guard, rep, mod, flags)
+    rep.attempt(check_state_after_compare, rep, mod)
     import c10
-    c10.check_stored_bound(rep, mod)
+    rep.attempt(c10.check_stored_bound, rep, mod)
     import acct, c19
-    acct.check(rep, 'i', 50, c19.field_offsets('struct isal_zstream', ['next_in', 'avail_in', 'total_in', 'next_out', 'avail_out', 'total_out']),
-               c19.field_offsets('struct inflate_state', ['next_in', 'avail_in', 'next_out', 'avail_out', 'total_out']), mod)
+    rep.attempt(acct.check, rep, 'i', 50, c19.field_offsets('struct isal_zstream', ['next_in', 'avail_in', 'total_in', 'next_out', 'avail_out', 'total_out']), c19.field_offsets('struct inflate_state', ['next_in', 'avail_in', 'next_out', 'avail_out', 'total_out']), mod)
     return rep.finish()
